@@ -980,9 +980,11 @@ func (s *Stage) finalize(file *finalFile) {
 	defer s.delPathLock(file.path)
 	defer fileLock.Unlock()
 
-	existingState := s.getFileState(file.path)
-	if existingState != stateValidated {
-		s.logDebug("Ignoring invalid (final):", file.name, existingState)
+	existing := s.fromCache(file.path)
+	if existing == nil || existing.state != stateValidated || existing.hash != file.hash {
+		// Not validated (any more), or the staged file belongs to another
+		// version of this path that has been announced since
+		s.logDebug("Ignoring invalid (final):", file.name)
 		return
 	}
 
@@ -1174,8 +1176,18 @@ func (s *Stage) toWait(prevPath string, next *finalFile, howLong time.Duration) 
 	}
 	files, ok := s.wait[prevPath]
 	if ok {
-		for _, waiting := range files {
+		for i, waiting := range files {
 			if waiting.path == next.path {
+				if waiting != next {
+					// A newer announcement of the same path takes the place of
+					// the one that was waiting: the staged file is the newer
+					// version's by now
+					if waiting.wait != nil {
+						waiting.wait.Stop()
+						waiting.wait = nil
+					}
+					files[i] = next
+				}
 				return
 			}
 		}
